@@ -1,7 +1,7 @@
 check("C10", "model_checking",
       "TLC evaluates constant expressions (operator matrix and depth-2 trees) with the same Machine.tla that defines run-time "
       "behaviour, and lengths and sizes with Layout.tla; every cell is compiled three ways (constant with literal operands, chain "
-      "of named constants in reverse dependency order, run time from variables) and every printed value is compared with the "
+      "of named constants in reverse dependency order, run time from variables; binary cells also with ONE operand constant: run-time op named constant, literal op run-time) and every printed value is compared with the "
       "specification; every (length 0..8 x passing mode x element type) and every structure up to the member bound is replayed. "
       "Also: cast chains 3 deep, mixed constant expressions (|:T| x casts x other constants, MC_MachineConst: TLC checks constant = run time as an "
       "invariant), aggregate constants with computed members, lengths that are chains of constant expressions in 10 positions, each pack with its "
